@@ -658,22 +658,6 @@ def run_graph(case):
 
 # ---- F13 : objects whose __reduce__ uses listitems / dictitems / state
 
-class ReduceList(list):
-    """list subclass: default object.__reduce_ex__(2) returns (copyreg.__newobj__, (cls,), state, listitems, None)."""
-
-    def __init__(self, *a):
-        super().__init__(*a)
-        self.tag = 'tag'
-
-    def __reduce__(self):
-        return self.__reduce_ex__(2)
-
-
-class ReduceDict(dict):
-    def __reduce__(self):
-        return self.__reduce_ex__(2)
-
-
 class ReduceState:
     def __init__(self, v=None):
         self.v = v
@@ -686,8 +670,7 @@ def run_reduce(case):
     import collections
     out = {}
     objs = {
-        'list_subclass_listitems': lambda: ReduceList([1, 2, 3]),
-        'dict_subclass_dictitems': lambda: ReduceDict(a=1, b=2),
+        'reduce_returns_str': lambda: np.sin,
         'state_only': lambda: ReduceState([1, 2]),
         'ordered_dict': lambda: collections.OrderedDict([('x', 1), ('y', [2])]),
         'deque': lambda: collections.deque([1, 2, 3]),
@@ -698,7 +681,9 @@ def run_reduce(case):
         out[name] = o
         obj = mk()
         try:
-            rv = obj.__reduce__() if name not in ('ordered_dict', 'deque', 'defaultdict') else obj.__reduce__()
+            rv = obj.__reduce__()
+            if isinstance(rv, str):
+                rv = (rv,)
             o['reduce_len'] = len(rv)
             o['has_listitems'] = len(rv) > 3 and rv[3] is not None
             o['has_dictitems'] = len(rv) > 4 and rv[4] is not None
@@ -708,7 +693,7 @@ def run_reduce(case):
         for method in ('hdf5:default', 'pickle'):
             try:
                 loaded = roundtrip(obj, method)
-                same = (type(loaded) is type(obj)) and (
+                same = (loaded is obj) if name == 'reduce_returns_str' else (type(loaded) is type(obj)) and (
                     (list(loaded) == list(obj) if isinstance(obj, (list, collections.deque)) else True) and
                     (dict(loaded) == dict(obj) if isinstance(obj, dict) else True) and
                     (getattr(loaded, '__dict__', None) == getattr(obj, '__dict__', None)))
